@@ -1,6 +1,8 @@
 package xixi_kv
 
 import (
+	"github.com/cespare/xxhash"
+
 	"github.com/XiXi-2024/xixi-kv/fio"
 	"github.com/XiXi-2024/xixi-kv/index"
 )
@@ -38,11 +40,19 @@ var vConcreteKeyFamilies = [][]string{
 	{"k", "k\x00", "k\xff"},
 	{"1234567", "12345678", "123456789"},
 	{"\xff\xff\xff\xff\xff\xff\xff\xfe", "\xff\xff\xff\xff\xff\xff\xff\xff", "\xff\xff\xff\xff\xff\xff\xff\xff\x00"},
+	// family 5: two DIFFERENT 16-byte keys with the SAME xxhash64 (constructed by inverting XXH64's per-word
+	// round; checked against the real hash when the pool is built) plus a bystander: everything keyed by the
+	// 64-bit hash (the batch's staging table, shard placement) must still tell them apart
+	{"user:0001/profil", "user:001\x1c\x87\x34\x82\xc7\x79\x31\x1e", "user:0021/profil"},
 }
 
 func verifKeyPool0(p int, maxLen int) *vPool {
 	if f := verifParam("ckeys"); f > 0 {
 		fam := vConcreteKeyFamilies[f-1]
+		if f == 5 {
+			verifAssert(xxhash.Sum64([]byte(fam[0])) == xxhash.Sum64([]byte(fam[1])), "kit.collision-family-does-not-collide")
+			verifReach("hash-collision-pair")
+		}
 		kp := &vPool{}
 		for i, k := range fam {
 			kp.keys = append(kp.keys, []byte(k))
